@@ -213,6 +213,17 @@ def run_util(case, bct, REC):
     if not np.any(W):
         return
     REC.tag(PROP, 'exec')
+    # the absolute threshold on real (signed) matrices: at occurring values of either sign, between them, at 0
+    off = ~np.eye(n, dtype=bool)
+    vals = sorted(set(W[off & (W != 0)].tolist()))
+    thrs = sorted(set(vals[:3] + vals[-3:] + [0.0] + [(a + b) / 2 for a, b in zip(vals[:-1], vals[1:])][:4]))
+    for thr in thrs:
+        ok, X = call(REC, PROP, 'threshold_absolute', bct.threshold_absolute, W.copy(), thr)
+        if ok:
+            REC.check(PROP, 'threshold_absolute', 'entries', bool(np.array_equal(np.asarray(X), np.where(off & (W >= thr), W, 0.0))),
+                      {'W': W, 'thr': thr, 'got': X}, ('signed_matrix',) if (W < 0).any() else ())
+    if thrs:
+        copy_semantics(REC, 'threshold_absolute', bct.threshold_absolute, W, (thrs[-1],), None)
     ok, X = call(REC, PROP, 'binarize', bct.binarize, W.copy())
     if ok:
         REC.check(PROP, 'binarize', 'entries', bool(np.array_equal(np.asarray(X), (W != 0).astype(float))), {'W': W, 'got': X})
@@ -249,7 +260,15 @@ def run(case, bct, REC):
         from .common import concurrent_callers_agree
         REC.tag(PROP, 'exec')
         return concurrent_callers_agree(REC, PROP, bct, [('threshold_proportional', lambda rs, n: (_cc_und(rs, n), .3)), ('threshold_absolute', lambda rs, n: (_cc_und(rs, n), .5)), ('weight_conversion', lambda rs, n: (_cc_und(rs, n), 'lengths'))], case['n'], case['ws'])
-    if case['kind'] == 'prop':
-        run_prop(case, bct, REC)
-    else:
-        run_util(case, bct, REC)
+    import warnings
+    # every other case runs in a process that turns warnings into errors (python -W error, pytest's filterwarnings =
+    # error): the utilities emit none on valid input, so nothing may change
+    strict = case['ms'] % 2 == 0
+    with warnings.catch_warnings():
+        if strict:
+            warnings.simplefilter('error')
+            REC.tag(PROP, 'cases_with_warnings_as_errors')
+        if case['kind'] == 'prop':
+            run_prop(case, bct, REC)
+        else:
+            run_util(case, bct, REC)
